@@ -97,6 +97,29 @@ def midnightPublic (resolve : Nat → TZ) (now : Instant) (obs : Obs α) (date :
   let z := normTz resolve tz
   midnight obs (normDatePlain now z date) z
 
+/-- the period functions and the five-event bundle: the zone may be a name, the date may be
+    omitted (today in that zone) — nothing else is normalised -/
+inductive PeriodFn | daylight | night | twilight | goldenHour | blueHour | rahuDay | rahuNight
+  deriving DecidableEq, Repr
+
+def periodPublic (resolve : Nat → TZ) (now : Instant) (fn : PeriodFn) (obs : Obs α)
+    (date : Option Int) (dir : Dir) (tz : TzArg) : Except Err (Instant × Instant) :=
+  let z := normTz resolve tz
+  let d := normDatePlain now z date
+  match fn with
+  | .daylight => daylight obs d z
+  | .night => night obs d z
+  | .twilight => twilight obs d dir z
+  | .goldenHour => goldenHour obs d dir z
+  | .blueHour => blueHour obs d dir z
+  | .rahuDay => rahukaalam obs d true z
+  | .rahuNight => rahukaalam obs d false z
+
+def sunBundlePublic (resolve : Nat → TZ) (now : Instant) (obs : Obs α) (date : Option Int)
+    (dep : DepSpec α) (tz : TzArg) : Except Err SunTimes :=
+  let z := normTz resolve tz
+  sunBundle obs (normDatePlain now z date) (normDep dep) z
+
 def moonPublic (resolve : Nat → TZ) (now : Instant) (rise : Bool) (lat lon : α)
     (date : DateSpec) (tz : TzArg) : Except Err (Option Instant) :=
   let z := normTz resolve tz
